@@ -88,33 +88,57 @@ def one_history(ctx, hno, steps):
         r = rng.random()
         before = bytes(bi.contents)
         bsize = bi.size
-        if r < 0.35:
-            v = rng.choice([0, 1, len(before), max(0, len(before) - 1),
-                            len(before) + 1, rng.randrange(0, 12), 2**64 - 1])
-            line = "size %d" % v
-            bi.size = v
-            exp_c, exp_s = before[:v], v
-            ctx.nontriv(("size", v < len(before), v == len(before), min(len(before), 4), min(v, 5), v < bsize))
-        elif r < 0.7:
-            v = rng.randrange(0, min(bi.size, 14) + 1)
-            line = "init %d" % v
-            bi.initialized_size = v
-            exp_c = before[:v] + b"\0" * max(0, v - len(before))
-            exp_s = bsize
-            ctx.nontriv(("init", v < len(before), v == len(before), min(len(before), 4), min(v, 5), v == bsize))
-        elif r < 0.9 and len(before):
-            i = rng.randrange(len(before))
-            b = rng.randrange(256)
-            line = "poke %d %d" % (i, b)
-            bi.contents[i] = b
-            exp_c = before[:i] + bytes([b]) + before[i + 1:]
-            exp_s = bsize
-            ctx.nontriv(("poke", i == 0, i == len(before) - 1, min(len(before), 4)))
-        else:
-            # address edits do not touch the storage
-            bi.address = rng.choice([None, 0, 7, 2**64 - 8])
-            line = None
-            exp_c, exp_s = before, bsize
+        try:
+            if r < 0.3:
+                v = rng.choice([0, 1, len(before), max(0, len(before) - 1),
+                                len(before) + 1, rng.randrange(0, 12),
+                                2**64 - 1])
+                line = "size %d" % v
+                exp_c, exp_s = before[:v], v
+                ctx.nontriv(("size", v < len(before), v == len(before),
+                             min(len(before), 4), min(v, 5), v < bsize,
+                             type(bi.contents).__name__))
+                bi.size = v
+            elif r < 0.6:
+                v = rng.randrange(0, min(bi.size, 14) + 1)
+                line = "init %d" % v
+                exp_c = before[:v] + b"\0" * max(0, v - len(before))
+                exp_s = bsize
+                ctx.nontriv(("init", v < len(before), v == len(before),
+                             min(len(before), 4), min(v, 5), v == bsize,
+                             type(bi.contents).__name__))
+                bi.initialized_size = v
+            elif r < 0.75 and len(before) and \
+                    isinstance(bi.contents, bytearray):
+                i = rng.randrange(len(before))
+                b = rng.randrange(256)
+                line = "poke %d %d" % (i, b)
+                exp_c = before[:i] + bytes([b]) + before[i + 1:]
+                exp_s = bsize
+                ctx.nontriv(("poke", i == 0, i == len(before) - 1,
+                             min(len(before), 4)))
+                bi.contents[i] = b
+            elif r < 0.9:
+                # a whole-contents edit with any bytes-like object, kept
+                # within the declared size (the property's quantifier)
+                k = rng.randrange(0, min(bsize, 9) + 1)
+                new = bytes(rng.randrange(256) for _ in range(k))
+                kind = rng.choice(["bytes", "bytearray", "bytearray"])
+                line = "assign %s" % hexb(new)
+                exp_c, exp_s = new, bsize
+                ctx.nontriv(("assign", kind, k == 0, k == bsize))
+                ctx.count("assign:" + kind)
+                bi.contents = new if kind == "bytes" else bytearray(new)
+            else:
+                # address edits do not touch the storage
+                line = None
+                exp_c, exp_s = before, bsize
+                bi.address = rng.choice([None, 0, 7, 2**64 - 8])
+        except Exception as e:   # noqa
+            script.append(line or "address")
+            return fail("edit-raised", "%r raised %s: %s (stored bytes now "
+                        "%d, size %d)" % (line, type(e).__name__, e,
+                                          len(bi.contents), bi.size))
         ctx.evaluations += 1
         if line:
             script.append(line)
